@@ -32,6 +32,14 @@ impl<F: Inner> SymF<F> {
         s
     }
     pub fn from_tid(v: F, id: u32) -> Self { SymF { v, id } }
+    /// literal values are lifted to the integers c or c - q; only "small" ones (|.| < 2^128) are
+    /// kept as literals so that literal arithmetic never wraps around the modulus
+    fn small(v: &F) -> bool {
+        let b: BigUint = (*v).into();
+        let m: BigUint = F::MODULUS.into();
+        let lim = BigUint::from(1u8) << 128;
+        b < lim || (&m - &b) < lim
+    }
     pub fn register(&self) {
         let limbs = self.v.into_bigint().0.to_vec();
         let id = self.tid();
@@ -49,7 +57,7 @@ impl<F: Inner> SymF<F> {
         A.with(|a| a.borrow_mut().mk(Term::Lit(s)))
     }
     fn bin(self, o: Self, v: F, f: impl Fn(&mut crate::arena::Arena, u32, u32) -> u32) -> Self {
-        if self.id == 0 && o.id == 0 { return SymF { v, id: 0 }; }
+        if self.id == 0 && o.id == 0 && Self::small(&v) { return SymF { v, id: 0 }; }
         let (x, y) = (self.tid(), o.tid());
         let id = A.with(|a| f(&mut a.borrow_mut(), x, y));
         let r = SymF { v, id };
@@ -174,7 +182,7 @@ impl<F: Inner> Field for SymF<F> {
     fn square_in_place(&mut self) -> &mut Self { *self = self.square(); self }
     fn inverse(&self) -> Option<Self> {
         let vi = self.v.inverse()?;
-        if self.id == 0 { return Some(SymF { v: vi, id: 0 }); }
+        if self.id == 0 && Self::small(&vi) { return Some(SymF { v: vi, id: 0 }); }
         let x = self.tid();
         let id = A.with(|a| a.borrow_mut().inv(x));
         let r = SymF { v: vi, id }; r.register(); Some(r)
